@@ -250,6 +250,33 @@ def check_hcflag_model(prog, rep):
                 rep.violation('HCFLAG-model', m, q, 'no-hc-added',
                               'with explicit_plus_hc the bond Hamiltonians must get their '
                               'Hermitian conjugate added', f.lineno)
+            # ... and it is added to the COMPLETE half: every contribution to the result (terms
+            # converted into it, helper calls that fill it) precedes the conjugation
+            hc_ifs = [st for st in ast.walk(f) if isinstance(st, ast.If) and
+                      'explicit_plus_hc' in unparse(st.test) and '.conj()' in unparse(st)]
+            res_names = {unparse(r.value) for r in ast.walk(f) if isinstance(r, ast.Return) and
+                         isinstance(r.value, ast.Name)}
+            for hi in hc_ifs:
+                for st in ast.walk(f):
+                    if not isinstance(st, (ast.Expr, ast.Assign, ast.AugAssign)) or \
+                            st.lineno <= (hi.end_lineno or hi.lineno):
+                        continue
+                    contributes = False
+                    for c in ast.walk(st):
+                        if isinstance(c, ast.Call) and any(
+                                isinstance(a, ast.Name) and a.id in res_names for a in c.args):
+                            contributes = True
+                    if isinstance(st, (ast.Assign, ast.AugAssign)):
+                        tg = st.targets[0] if isinstance(st, ast.Assign) else st.target
+                        base = tg.value if isinstance(tg, ast.Subscript) else tg
+                        if isinstance(base, ast.Name) and base.id in res_names:
+                            contributes = True
+                    if contributes:
+                        rep.violation('HCFLAG-model', m, q, 'contribution-after-hc',
+                                      '`%s` adds to the result after the Hermitian conjugate was '
+                                      'added under explicit_plus_hc: these terms (stored as one '
+                                      'half as well) never get their h.c.' % key_text(st)[:70],
+                                      st.lineno)
         if how == 'set':
             ok = any(isinstance(s, ast.Assign) and unparse(s.targets[0]).endswith(
                 '.explicit_plus_hc') and unparse(s.value) == 'self.explicit_plus_hc'
